@@ -656,20 +656,30 @@ func (m *Mux) newUnderlay(ctx context.Context) (Underlay, error) {
 
 	switch p.TransportProtocol() {
 	case common.StreamTransport:
-		block, err := cipher.BlockCipherFromPassword(m.password, false)
+		password, username := m.password, m.username
+		newBlock := func() (cipher.BlockCipher, error) {
+			block, err := cipher.BlockCipherFromPassword(password, false)
+			if err != nil {
+				return nil, err
+			}
+			block.SetBlockContext(cipher.BlockContext{
+				UserName: username,
+			})
+			if trafficPattern != nil {
+				block.SetNoncePattern(trafficPattern.GetNonce())
+			}
+			return block, nil
+		}
+		block, err := newBlock()
 		if err != nil {
 			return nil, fmt.Errorf("cipher.BlockCipherFromPassword() failed: %v", err)
 		}
-		block.SetBlockContext(cipher.BlockContext{
-			UserName: m.username,
-		})
-		if trafficPattern != nil {
-			block.SetNoncePattern(trafficPattern.GetNonce())
-		}
-		underlay, err = NewStreamUnderlay(ctx, m.dialer, m.resolver, m.clientDNSConfig, p.RemoteAddr().Network(), p.RemoteAddr().String(), p.MTU(), block, trafficPattern)
+		streamUnderlay, err := NewStreamUnderlay(ctx, m.dialer, m.resolver, m.clientDNSConfig, p.RemoteAddr().Network(), p.RemoteAddr().String(), p.MTU(), block, trafficPattern)
 		if err != nil {
 			return nil, fmt.Errorf("NewTCPUnderlay() failed: %v", err)
 		}
+		streamUnderlay.newBlock = newBlock
+		underlay = streamUnderlay
 	case common.PacketTransport:
 		block, err := cipher.BlockCipherFromPassword(m.password, true)
 		if err != nil {
